@@ -51,5 +51,8 @@ Spec == Init /\ [][Next]_vars
 
 \* old-or-new, monotone after completion, malformed keeps old - all in one: the answer is explainable
 Mon_Explainable == ok
+\* a good version that was renamed into place comes into force (the recorder waits 5 s for it; "notloaded" is recorded otherwise):
+\* a reload that never happens makes every later validation answer from contents that are no longer the file's
+Mon_Completes == last.kind # "notloaded"
 TraceAccepted == TLCGet("stats").diameter - 1 = Len(Trace)
 =============================================================================
